@@ -315,6 +315,112 @@ def check_reader(case: dict) -> dict:
     return {'nontrivial': nontrivial(chunks, boundaries), 'classes': classes}
 
 
+# ---------------------------------------------------------------------------- engine a2: two connections read in one loop
+
+
+@st.composite
+def pair_cases(draw):
+    """two streams on two connections of one process, their chunks delivered in a drawn interleaving: what one connection is in the
+    middle of (a header cut after 17 or 18 octets, a body half read) must not leak into the other"""
+    a, b = draw(reader_cases()), draw(reader_cases())
+    for c in (a, b):
+        c['bad'] = None
+        c['partial_tail'] = 0
+        c['msg_size'] = 4096
+        c['msgs'] = [m for m in c['msgs'] if 19 + m[1] <= 4096][:5] or [[4, 0, 0]]
+        if c['mode'] == 'bytewise':
+            c['mode'] = 'header-cuts'
+    order = draw(st.lists(st.integers(0, 1), min_size=0, max_size=60))
+    return {'a': a, 'b': b, 'order': order}
+
+
+def pair_fixed() -> list:
+    upd = [2, 305, 7]  # type, body length, fill
+    ka = [4, 0, 0]
+    out = []
+    for cut in (16, 17, 18, 19, 40):
+        a = {'msg_size': 4096, 'msgs': [upd, ka], 'bad': None, 'mode': 'cuts', 'cuts': [cut], 'partial_tail': 0}
+        b = {'msg_size': 4096, 'msgs': [[2, 33, 9], ka], 'bad': None, 'mode': 'whole', 'cuts': [], 'partial_tail': 0}
+        out.append({'a': a, 'b': b, 'order': [0, 1, 0]})
+        out.append({'a': b, 'b': a, 'order': [1, 0, 1]})
+    return out
+
+
+def check_pair(case: dict) -> dict:
+    streams = []
+    for key in ('a', 'b'):
+        stream, boundaries = build_stream(case[key])
+        streams.append((stream, chunks_of(case[key], stream, boundaries), boundaries))
+
+    async def main(loop):
+        socks, conns, got = [], [], [[], []]
+        for _ in range(2):
+            x, y = socket.socketpair()
+            x.setblocking(False)
+            y.setblocking(False)
+            y.setsockopt(socket.SOL_SOCKET, socket.SO_SNDBUF, 1 << 20)
+            socks.append(y)
+            conns.append(make_connection(x, 4096))
+
+        async def feeder():
+            queues = [list(streams[0][1]), list(streams[1][1])]
+            order = list(case['order'])
+            while queues[0] or queues[1]:
+                k = order.pop(0) if order else (0 if queues[0] else 1)
+                if not queues[k]:
+                    k = 1 - k
+                await loop.sock_sendall(socks[k], queues[k].pop(0))
+                await asyncio.sleep(0.01)
+            for y in socks:
+                y.close()
+
+        async def reader(k: int):
+            from exabgp.reactor.network.error import LostConnection
+
+            while True:
+                try:
+                    length, mtype, header, body, err = await conns[k].reader_async()
+                except LostConnection:
+                    return
+                if err is not None:
+                    got[k].append(('err', err.code, err.subcode))
+                    return
+                # the header handed up belongs to this message (it is what the API shows as the packet header)
+                got[k].append(('msg', length, mtype, bytes(body), bytes(header)))
+
+        f = asyncio.ensure_future(feeder())
+        try:
+            await asyncio.gather(reader(0), reader(1))
+        finally:
+            f.cancel()
+            try:
+                await f
+            except (asyncio.CancelledError, Exception):  # noqa: BLE001
+                pass
+            for c in conns:
+                c.close()
+            for y in socks:
+                try:
+                    y.close()
+                except OSError:
+                    pass
+        return got
+
+    try:
+        got = vloop.run(main)
+    except vloop.Deadlock as exc:
+        raise Violation('two-connections:stalls', str(exc)) from None
+    for k, name in enumerate(('first', 'second')):
+        stream = streams[k][0]
+        want_msgs, want_err, _tail = codec.split_stream(stream, 4096, known_types=ALL_TYPES)
+        compare(f'two-connections:{name}', [g[:4] for g in got[k]], want_msgs, want_err, len(want_msgs))
+        for g, w in zip([g for g in got[k] if g[0] == 'msg'], want_msgs):
+            if g[4] != codec.MARKER + w[0].to_bytes(2, 'big') + bytes([w[1]]):
+                raise Violation('two-connections:header-of-another-message', f'{name} connection: message of length {w[0]} type {w[1]} handed up with header {g[4].hex()}')
+    mixed = len(set(case['order'])) > 1 or (case['order'] and len(streams[1 - case['order'][0]][1]) > 0)
+    return {'nontrivial': bool(mixed) and (nontrivial(streams[0][1], streams[0][2]) or nontrivial(streams[1][1], streams[1][2])), 'classes': ['two-connections']}
+
+
 # ---------------------------------------------------------------------------- engine b: Protocol.read_message
 
 
@@ -468,6 +574,7 @@ def check_protocol(case: dict) -> dict:
 ENGINES = [
     Engine('reader', reader_cases, check_reader, quick=400, thorough=6000, batch=200),
     Engine('read_message', protocol_cases, check_protocol, quick=250, thorough=4000, batch=125),
+    Engine('two-connections', pair_cases, check_pair, quick=150, thorough=4000, batch=150, fixed_cases=pair_fixed),
 ]
 
 
